@@ -307,8 +307,8 @@ def run_coq_cases(tag, mods, items, timeout=1200):
 
 
 def parse_verdict(s):
-    """'mkv true true false' -> (True, True, False)"""
-    m = re.match(r"mkv (true|false) (true|false) (true|false)", s or "")
+    """'mkv true true false true' -> (True, True, False, True)"""
+    m = re.match(r"mkv (true|false) (true|false) (true|false) (true|false)", s or "")
     if not m:
         return None
     return tuple(x == "true" for x in m.groups())
